@@ -2,7 +2,8 @@
 yin_parse_content (keyword, YIN_SUBELEM_MANDATORY, YIN_SUBELEM_UNIQUE) — both spellings: a `struct yin_subelement subelems[] = {...}`
 initialiser and a `subelems_allocator(ctx, n, parent, &subelems, ...)` call — and (b) the emission pattern of the YIN printer for the
 same statement: the sequence of child statements the yprp_* function writes, each `always` (0), `optional` (1: ypr_substmt with a
-possibly-NULL text, flag-driven helpers) or `many` (2: inside LY_ARRAY_FOR / LY_LIST_FOR, extension instances, if-features).
+possibly-NULL text, flag-driven helpers) or `many` (2: inside LY_ARRAY_FOR / LY_LIST_FOR, extension instances, if-features; 3: any number too, in one group
+with the preceding entry — the alternatives of one dispatching call, in any order among themselves).
 Calls that print no child statement are on an allow list; an unknown call makes the extractor refuse."""
 import os, re, sys
 
@@ -100,8 +101,10 @@ def emission_of(py, fname, kwtext, depth=0, kind=None):
                     raise minic.Unsupported("%s: yprp_restr call not recognised" % fname)
                 out.append((kwtext[a.group(1)], 2 if inloop else 1))
             elif name in CALLS:
-                for kw, mode in CALLS[name]:
-                    out.append((kw.encode(), mode if mode is not None else (2 if inloop else 1)))
+                # several alternatives from ONE call (yprp_node dispatches on the node type): the first entry opens a repeatable group
+                # (mode 2), the others continue it (mode 3) — any number of each, in any order among themselves
+                for j, (kw, mode) in enumerate(CALLS[name]):
+                    out.append((kw.encode(), 3 if j else (mode if mode is not None else (2 if inloop else 1))))
             elif name in EXPAND:
                 sub = emission_of(py, name, kwtext, depth + 1, kind)
                 out += [(k, 2 if inloop else md) for k, md in sub]
@@ -130,7 +133,7 @@ def gen_yincard():
         em = emission_of(py, prf, kwtext, 0, kind)
         out.append("/-- `%s`: the `subelems` table given to `yin_parse_content` — (keyword, `[]` = extension instance; MANDATORY; UNIQUE) -/" % pf)
         out.append("def yinSubelems_%s : List (Bytes × Bool × Bool) := [\n%s\n]\n" % (kind, rows(sub, lambda r: "%s, %s" % (str(r[1]).lower(), str(r[2]).lower()))))
-        out.append("/-- `%s`: child statements in emission order — (keyword; 0 always, 1 optional, 2 any number) -/" % prf)
+        out.append("/-- `%s`: child statements in emission order — (keyword; 0 always, 1 optional, 2 any number, 3 any number, interleaved with the preceding entry) -/" % prf)
         out.append("def yinEmit_%s : List (Bytes × Nat) := [\n%s\n]\n" % (kind, rows(em, lambda r: str(r[1]))))
     out.append("end LyModel.Generated\n")
     return "\n".join(out), []
